@@ -111,15 +111,20 @@ def plan_session(W, spec):
     spec["nex"], spec["proto"] = nex, p["name"]
     cfg = (nex, 0, spec["pid_size"])          # generation does not look at the header flag (the visible values do: judge())
     def call(m, big):
-        g.nonascii = rng.random() < 0.25
+        x = rng.random()
+        g.nonascii = x < 0.25
+        g.edge = 0.25 <= x < 0.5           # a string from the edges of the domain in every string position (c14_values.py)
         if big: g.start_big()
+        # over PRUDP a message must fit 255 fragments (of 500 bytes in some sessions): at most one length-border string of up to 32768 bytes per message
+        g.edge_long_cap, g.edge_long_left = 32768, 1
         try:
             args = [g.gen(v["type"], cfg, 0, False) for v in m["request"]]
+            g.edge_long_left = 1
             if big: g.start_big()
             rets = [g.gen(v["type"], cfg, 0, len(m["response"]) == 1 and v["type"]["name"] != "anydata") for v in m["response"]]
         finally:
-            g.nonascii = False; g.big = False
-        return {"m": m, "args": args, "rets": rets, "big": big, "pause": rng.choice([0, 0, 0.5, 1.25, 2.5])}
+            g.nonascii = False; g.edge = False; g.big = False
+        return {"m": m, "args": args, "rets": rets, "big": big, "edge": 0.25 <= x < 0.5, "pause": rng.choice([0, 0, 0.5, 1.25, 2.5])}
     want = [("struct", False)] * 3 + [("anydata", False)] * 2 + [("big", True)] * 3 + [("plain", False)] * 2 + [("struct", True)]
     picks = []
     for k, big in want:
@@ -473,6 +478,7 @@ def judge(W, spec, obs, outs, i0, res, tag):
         if why is None:
             tag("wire-call:%s:ok" % profile)
             if c["big"]: tag("wire-call:large-values")
+            if c.get("edge"): tag("wire-call:edge-of-domain-strings")
             res["keys"].append(ckey)
         elif failed is None:
             failed = (ncalls - 1, si, c, why)
